@@ -75,6 +75,10 @@ const (
 	RetElse     // if VF<r> { H.Y } else { if H.Ret(r) { return V } }   return from an else block
 	RetReq      // if H.Ret(r) { return Req.ID }                 value derived from the request's own data
 	RetUnexp    // if H.Ret(r) { H.B(r,p) return Req.hidden }    a value reflection cannot hand out: the rule must fail, no entry
+	RetForRange // forRange k := RS<r> { if H.Ret(r) { return V } }          return from inside a forRange body
+	RetElseIf   // if VF<r> { H.Y } else if H.Ret(r) { return V }            return from an else-if branch
+	RetBreak    // for ... { if w == 1 { break } } if H.Ret(r) { return V }  a loop left by break before the return
+	RetContinue // for ... { if w == 0 { continue } if H.Ret(r) { return V } }  return in the iteration after a continue
 	numRetKinds
 )
 
@@ -289,6 +293,14 @@ func (r *RuleDef) Render() string {
 		fmt.Fprintf(&b, "if H.Ret(%d) {\nreturn Req.ID\n}\n", id)
 	case RetUnexp:
 		fmt.Fprintf(&b, "if H.Ret(%d) {\nH.B(%d,%d)\nreturn Req.hidden\n}\n", id, id, rp)
+	case RetForRange:
+		fmt.Fprintf(&b, "forRange kr%d := RS%d {\nif H.Ret(%d) {\nreturn %d\n}\n}\n", id, id, id, r.RetVal())
+	case RetElseIf:
+		fmt.Fprintf(&b, "if VF%d {\nH.Y(%d,%d)\n} else if H.Ret(%d) {\nreturn %d\n}\n", id, id, yk, id, r.RetVal())
+	case RetBreak:
+		fmt.Fprintf(&b, "for w = 0; w < 3; w += 1 {\nif w == 1 {\nbreak\n}\n}\nif H.Ret(%d) {\nreturn %d\n}\n", id, r.RetVal())
+	case RetContinue:
+		fmt.Fprintf(&b, "for w = 0; w < 2; w += 1 {\nif w == 0 {\ncontinue\n}\nif H.Ret(%d) {\nreturn %d\n}\n}\n", id, r.RetVal())
 	case RetElse:
 		fmt.Fprintf(&b, "if VF%d {\nH.Y(%d,%d)\n} else {\nif H.Ret(%d) {\nreturn %d\n}\n}\n", id, id, yk, id, r.RetVal())
 	}
